@@ -54,7 +54,7 @@ def run_configs(chk, harness, configs, prefixes, jobs, deadline_s, variant_of=No
         # fairness between configurations: none may take more than three times its even share of what is left (the
         # explorer completes the bounds 0..D in turn, so a configuration that is cut reports the bound it completed)
         n_left = len(configs) - len(per_cfg)
-        share = max(60.0, 3.0 * left / max(1, n_left))
+        share = max(150.0 if deadline_s <= 900 else 60.0, 3.0 * left / max(1, n_left))
         res = harnesses.explore(exes[variant], params, bound, min(left, share), jobs=jobs, env=env)
         if res.get("deadline_hit"):
             chk.deadline_hit = True
